@@ -1353,11 +1353,11 @@ func TestC14Seq(t *testing.T) {
 	rep.Extra["bounds"] = fmt.Sprintf("all sequences<=%d; full-house prefix + <=%d; dedup BFS depth %d; ports=3", seqDepth, fullHouseDepth, bfsDepth)
 	for _, k := range []string{"add_ok", "add_failed_garbage", "add_failed_storage", "add_failed_dup", "add_failed_noport", "rm_live", "rm_absent", "start", "stop", "addtracker", "reopen", "restart_compared"} {
 		if totals[k] == 0 {
-			core.HarnessError("vacuous: counter %s is zero", k)
+			rep.Vacuous("vacuous: counter %s is zero", k)
 		}
 	}
 	if totals["compact_ok"]+totals["compact_panicked"] == 0 {
-		core.HarnessError("vacuous: CompactDatabase never ran")
+		rep.Vacuous("vacuous: CompactDatabase never ran")
 	}
 	keys := make([]string, 0, len(best))
 	for k := range best {
